@@ -436,3 +436,37 @@ pub unsafe extern "C" fn preadv64(fd: libc::c_int, iov: *const libc::iovec, cnt:
     point("preadv");
     real!("preadv64", unsafe extern "C" fn(libc::c_int, *const libc::iovec, libc::c_int, libc::off64_t) -> libc::ssize_t)(fd, iov, cnt, off)
 }
+
+// ---- the wall clock ---------------------------------------------------------------------------
+// `SystemTime::now()` is `clock_gettime(CLOCK_REALTIME)`. A thread that set a clock with
+// `set_clock` reads that value (and nothing else changes: other clock ids, other threads).
+
+thread_local! {
+    static CLOCK: Cell<Option<(i64, i64)>> = const { Cell::new(None) };
+    static CLOCK_READS: Cell<u64> = const { Cell::new(0) };
+}
+
+/// Sets (or, with None, releases) the wall clock of the calling thread: seconds and nanoseconds
+/// since the epoch.
+pub fn set_clock(t: Option<(i64, i64)>) {
+    std::hint::black_box(clock_gettime as *const () as usize);
+    CLOCK.with(|c| c.set(t));
+}
+
+/// How often the calling thread read a controlled wall clock.
+pub fn clock_reads() -> u64 {
+    CLOCK_READS.with(|c| c.get())
+}
+
+#[no_mangle]
+pub unsafe extern "C" fn clock_gettime(id: libc::clockid_t, ts: *mut libc::timespec) -> libc::c_int {
+    if id == libc::CLOCK_REALTIME && !ts.is_null() {
+        if let Some((s, n)) = CLOCK.try_with(|c| c.get()).ok().flatten() {
+            let _ = CLOCK_READS.try_with(|c| c.set(c.get() + 1));
+            (*ts).tv_sec = s as libc::time_t;
+            (*ts).tv_nsec = n as _;
+            return 0;
+        }
+    }
+    real!("clock_gettime", unsafe extern "C" fn(libc::clockid_t, *mut libc::timespec) -> libc::c_int)(id, ts)
+}
